@@ -188,3 +188,12 @@ M("chunk-merge-drops-tie-order", S, "        keyed_iterables = [(_Keyed(key(obj)
 M("pivot-presorted-sorts-anyway-by-f1", "transform/reshape.py", "            self.source = sort(source, key=(f1, f2), buffersize=buffersize,", "            self.source = sort(source, key=f1, buffersize=buffersize,", ["C14"])
 # (equivalent by results, which is the property: ignoring a strategy argument cannot change the output)
 M("config-buffersize-read-late-EQUIV", S, "        if buffersize is None:\n            self.buffersize = config.sort_buffersize\n        else:\n            self.buffersize = buffersize", "        self._bs = buffersize\n        self.buffersize = 100000 if buffersize is None else buffersize", ["C11"])
+
+# ---- C18 ----------------------------------------------------------------------------------
+M("chunkfile-wrapper-no-del", S, "    def __del__(self):\n        self.delete()", "    def __del__(self):\n        pass", ["C18"])
+# (chunk files created with delete=True vanish at once and fail the existing buffered-sort tests: not a valid mutant)
+M("filecache-iterator-no-own-reference", S, "    def _iterfromfilecache(self, hdrcache, filecache, getkey):\n        # hold a reference to the filecache here, so cleanup happens in the\n        # correct order\n        filenames = list(map(operator.attrgetter('name'), filecache))",
+  "    def _iterfromfilecache(self, hdrcache, filecache, getkey):\n        filenames = list(map(operator.attrgetter('name'), filecache))\n        filecache = None", ["C18"])
+M("fromdicts-gen-del-no-unlink", "io/json.py", "            self._filecache.close()\n            unlink(self._filecache.name)", "            self._filecache.close()", ["C18"])
+M("sort-failure-leaks-chunks", S, "            chunkfiles = []\n\n            while rows:", "            chunkfiles = self.__dict__.setdefault('_leak', [])\n\n            while rows:", ["C18"])
+# (keeping the chunk-file wrappers on the view although cache=False is equivalent for C18: the files die with the view)
